@@ -435,6 +435,35 @@ def r_branch(ctx: Ctx, model):
                        nontrivial_key=("fm", calc, shape))
 
 
+def r_bounds_init(ctx: Ctx, model):
+    """the bounds in force: bounds the user hands a model (param_bounds=...) are the ones it keeps - for every parameter named, the rest
+    falling back to nothing else than what the user gave (the constructor does not mix in defaults for a user-supplied dictionary)"""
+    ctx.rule("F-protocol (bounds in force): IsothermBaseModel.__init__(param_bounds={...}) stores exactly the user's bounds per parameter; "
+             "without it the class defaults in parameter order; an unknown parameter name is refused")
+    I = make_interp(model)
+    ci = model.cls("pygaps.modelling.langmuir.Langmuir")
+    ub = {"n_m": (Num.const(0), Num.const(6)), "K": (Num.const(1), Num.const(100))}
+    outs = I.explore(lambda I: I.instantiate(ci, [], {"param_bounds": {k_: tuple(v) for k_, v in ub.items()}}, None))
+    ok = len(outs) == 1 and outs[0].kind == "ok" and isinstance(outs[0].value.attrs.get("param_bounds"), dict)
+    got = outs[0].value.attrs.get("param_bounds") if ok else None
+    ok = ok and set(got) == set(ub) and all(tuple(got[k_]) == ub[k_] for k_ in ub)
+    ctx.ob(ok, Finding("C12.F-protocol", ci.find_method("__init__").where if ci.find_method("__init__") else BM, "model-init|user-bounds",
+                       f"Langmuir(param_bounds={{'n_m': (0, 6), 'K': (1, 100)}}) keeps the bounds {I.describe(got) if got is not None else [repr(o)[:80] for o in outs[:1]]}; "
+                       "required exactly the user's bounds (they are the bounds in force for the fit)"), nontrivial_key=("bounds-init", "user"))
+    outs = I.explore(lambda I: I.instantiate(ci, [], {}, None))
+    dflt = I.class_const(ci, ci.find_assign("param_default_bounds")[1]) if ci.find_assign("param_default_bounds") else None
+    names = I.class_const(ci, ci.find_assign("param_names")[1])
+    okd = len(outs) == 1 and outs[0].kind == "ok" and dflt is not None and isinstance(outs[0].value.attrs.get("param_bounds"), dict) \
+        and list(outs[0].value.attrs["param_bounds"].items()) == list(zip(names, dflt))
+    ctx.ob(okd, Finding("C12.F-protocol", BM, "model-init|default-bounds",
+                        "a model built without param_bounds must carry the class's default bounds, paired with the parameter names in order"),
+           nontrivial_key=("bounds-init", "default"))
+    outs = I.explore(lambda I: I.instantiate(ci, [], {"param_bounds": {"nope": (Num.const(0), Num.const(1))}}, None))
+    ctx.ob(bool(outs) and all(o.kind == "raise" and o.exc.is_a("ParameterError") for o in outs),
+           Finding("C12.F-protocol", BM, "model-init|unknown-parameter-bound", "a bound for a parameter the model does not have must be refused with ParameterError"),
+           nontrivial_key=("bounds-init", "unknown"))
+
+
 def run(ctx: Ctx):
     model = load(ctx.root)
     # "only the requested branch is used" when the branches are guessed: the split itself (shared with C03, interpreted on concrete sequences)
@@ -442,6 +471,7 @@ def run(ctx: Ctx):
     r_split_values(ctx, model, prop="C12")
     ctx.assume("scipy.optimize.least_squares returns res.x, res.fun, res.success of one optimisation")
     r_fit(ctx, model)
+    r_bounds_init(ctx, model)
     r_data(ctx, model)
     r_temperature(ctx, model)
     r_best(ctx, model)
